@@ -460,6 +460,8 @@ class SymInterp:
                 raise AnalysisError(f"symbolic object {v!r} has no attribute {e.attr}")
             if any(v is m_ for m_ in _PURE_MODULES.values()):
                 return getattr(v, e.attr)
+            if issubclass(type(v), (int, float, complex, _Fraction)) and not issubclass(type(v), bool) and e.attr in ("real", "imag", "numerator", "denominator"):
+                return getattr(v, e.attr)
             if isinstance(v, (list, tuple, str, dict, set)) and e.attr in ("append", "extend", "copy", "remove", "index", "insert", "get", "items", "keys", "values", "update", "pop", "setdefault",
                                                                            "sort", "reverse", "count", "add", "discard", "clear"):
                 return getattr(v, e.attr)
@@ -656,6 +658,8 @@ class SymInterp:
                 return recv.call(f.attr, args, kwargs)
             if any(recv is m_ for m_ in _PURE_MODULES.values()) or (isinstance(recv, type) and getattr(recv, "__module__", None) in _PURE_MODULES):
                 return getattr(recv, f.attr)(*args, **kwargs)          # itertools.product(...), chain.from_iterable(...), ...
+            if issubclass(type(recv), (int, float, complex, _Fraction)) and not issubclass(type(recv), bool) and f.attr in ("conjugate", "real", "imag", "is_integer", "bit_length", "as_integer_ratio", "item"):
+                return getattr(recv, f.attr)(*args, **kwargs) if f.attr != "item" else recv
             if isinstance(recv, (list, tuple, str, dict, set, frozenset, range)) or type(recv).__module__ == "collections":
                 if getattr(recv, "_cls", None) is not None and not hasattr(type(recv), f.attr):
                     # a container stand-in of a source class (e.g. a list subclass): helper methods of that class come from the source
